@@ -56,11 +56,14 @@ CONSTANTS NSplits, NRec, NOps,
           KeyDigits,
           AtomicFlush,  \* TRUE = the code as it is (Flush + Reserve under flushMu); FALSE only to GENERATE the schedules
                         \* that a non-atomic flush would admit (the real code must serialise them)
+          Dev_NoFlushAtEOI, \* TRUE = the code as it is: end of input only stops the reads (the loop's SourceComplete branch is
+                        \* unreachable because ReadSourceChannel.C is never closed); FALSE = intended design: Flush, final
+                        \* watermark, SourceComplete, operators.flush()
           Dev_SnapshotAfterNextRead, \* model self-test only: the split positions are taken one read after the barrier was queued
           MaxLen
 
 VARIABLES cursor, order, cuts, stream, ok,                   \* ghost / observable (ok: the stream clauses held at every Deliver)
-          lpend, ostr, eoi, nbar, nticks,                    \* L
+          lpend, ostr, eoi, lfin, nbar, nticks,              \* L (lfin: final watermark + SourceComplete still to be queued)
           kbatch, karmed, kfires, nkf, pc, ev, klock,        \* key-by batcher + flushers
           nextSeq, drained, reserved, fetch, items, kout, dblk, \* reorder buffer
           rtodo, rbusy, rwait, njoin, nsent,                 \* R
@@ -68,7 +71,7 @@ VARIABLES cursor, order, cuts, stream, ok,                   \* ghost / observab
           hist
 
 abs   == <<cursor, order, cuts, stream, ok>>
-lvars == <<lpend, ostr, eoi, nbar, nticks>>
+lvars == <<lpend, ostr, eoi, lfin, nbar, nticks>>
 kvars == <<kbatch, karmed, kfires, nkf, pc, ev, klock>>
 bvars == <<nextSeq, drained, reserved, fetch, items, kout, dblk>>
 rvars == <<rtodo, rbusy, rwait, njoin, nsent>>
@@ -84,6 +87,8 @@ Cap    == MaxSize                 \* BufferSize = MaxSize: reorder buffer slots 
 Rec(sp, i)  == [t |-> "r", a |-> sp, b |-> i]
 Bar(n)      == [t |-> "b", a |-> n, b |-> 0]
 Wm(k)       == [t |-> "w", a |-> k, b |-> 0]
+Cmp         == [t |-> "c", a |-> 0, b |-> 0]   \* SourceComplete
+FlushCmd    == [t |-> "F", a |-> 0, b |-> 0]   \* operators.flush() for one operator (never enters a batch)
 RECURSIVE Pow(_, _)
 Pow(b, e)   == IF e = 0 THEN 1 ELSE b * Pow(b, e - 1)
 KeyAt(sp, i) == ((KeyCode \div Pow(NKeys, ((sp - 1) * NRec + i - 1) % KeyDigits)) % NKeys) + 1
@@ -127,6 +132,7 @@ MarkerOK(o, i) ==
                        /\ before = {r \in Below(CutOf(m.a)) : Owner(r) = o}
        [] m.t = "w" -> /\ m.a <= Len(order)
                        /\ {r \in ReadSet(m.a) : Owner(r) = o} \subseteq before
+       [] m.t = "c" -> {r \in SetOf(order) : Owner(r) = o} \subseteq before
        [] OTHER -> TRUE
 
 MarkersOK == \A o \in Ops : \A i \in DOMAIN stream[o] : MarkerOK(o, i)
@@ -143,7 +149,7 @@ StreamsOK == OnceAtOwner /\ SplitKeyOrder /\ MarkersOK /\ MarkersOrdered
 Init ==
   /\ cursor = [s \in Splits |-> 0] /\ order = <<>> /\ cuts = <<>>
   /\ stream = [o \in Ops |-> <<>>] /\ ok = TRUE
-  /\ lpend = <<>> /\ ostr = <<>> /\ eoi = FALSE /\ nbar = 0 /\ nticks = 0
+  /\ lpend = <<>> /\ ostr = <<>> /\ eoi = FALSE /\ lfin = FALSE /\ nbar = 0 /\ nticks = 0
   /\ kbatch = <<>> /\ karmed = FALSE /\ kfires = 0 /\ nkf = 0
   /\ pc = [g \in G |-> "idle"] /\ ev = [g \in G |-> <<>>] /\ klock = "free"
   /\ nextSeq = 0 /\ drained = 0 /\ reserved = 0
@@ -171,12 +177,15 @@ LAdd(b, ar, o, recs) ==
 \* the time-out goroutine returns to its select: a pending expiry is received at once
 TIdle(p, f) == IF f > 0 THEN <<[p EXCEPT !["t"] = "flush"], f - 1>> ELSE <<[p EXCEPT !["t"] = "idle"], f>>
 
-LIdle == pc["c"] = "idle" /\ lpend = <<>>
+LIdle == pc["c"] = "idle" /\ lpend = <<>> /\ ~lfin
 
 \* L continues its read after a flush (or starts one): sets kbatch, karmed, ostr, lpend, pc["c"]
 LRun(b, ar, recs, p) ==
   LET r == LAdd(b, ar, ostr, recs)
-  IN /\ kbatch' = r[1] /\ karmed' = r[2] /\ ostr' = r[3] /\ lpend' = r[4]
+      fin == lfin /\ r[4] = <<>> /\ ~r[5]    \* keyEventChannel.Flush returned: final watermark + SourceComplete
+  IN /\ kbatch' = r[1] /\ karmed' = r[2] /\ lpend' = r[4]
+     /\ ostr' = IF fin THEN r[3] \o <<[t |-> "w", a |-> 0, b |-> 0], [t |-> "c", a |-> 0, b |-> 0]>> ELSE r[3]
+     /\ lfin' = IF fin THEN FALSE ELSE lfin
      /\ pc' = [p EXCEPT !["c"] = IF r[5] THEN "flush" ELSE "idle"]
 
 ReadSplit(sp, n) ==
@@ -195,15 +204,18 @@ AllRead == \A s \in Splits : cursor[s] = NRec
 SourceEnd ==
   /\ WithEOI /\ LIdle /\ ~eoi /\ AllRead
   /\ eoi' = TRUE
+  /\ IF Dev_NoFlushAtEOI
+     THEN UNCHANGED <<lfin, pc>>
+     ELSE lfin' = TRUE /\ pc' = [pc EXCEPT !["c"] = "flush"]
   /\ Log([a |-> "SourceEnd"])
-  /\ UNCHANGED <<abs, lpend, ostr, nbar, nticks, kvars, bvars, rvars, ovars>>
+  /\ UNCHANGED <<abs, lpend, ostr, nbar, nticks, kbatch, karmed, kfires, nkf, ev, klock, bvars, rvars, ovars>>
 
 Tick ==
   /\ LIdle /\ nticks < MaxTicks
   /\ nticks' = nticks + 1
   /\ ostr' = Append(ostr, [t |-> "w", a |-> 0, b |-> 0])
   /\ Log([a |-> "Tick"])
-  /\ UNCHANGED <<abs, lpend, eoi, nbar, kvars, bvars, rvars, ovars>>
+  /\ UNCHANGED <<abs, lpend, eoi, lfin, nbar, kvars, bvars, rvars, ovars>>
 
 \* createCheckpoint (sourceReader.Checkpoint + OnSourceRunnerCheckpointComplete)
 \* and the barrier placeholder: one iteration of the loop
@@ -213,7 +225,7 @@ BarrierCut ==
   /\ cuts' = Append(cuts, [n |-> nbar + 1, pos |-> cursor, nread |-> Len(order)])
   /\ ostr' = Append(ostr, [t |-> "b", a |-> nbar + 1, b |-> 0])
   /\ Log([a |-> "BarrierCut", n |-> nbar + 1, pos |-> cursor])
-  /\ UNCHANGED <<cursor, order, stream, ok, lpend, eoi, nticks, kvars, bvars, rvars, ovars>>
+  /\ UNCHANGED <<cursor, order, stream, ok, lpend, eoi, lfin, nticks, kvars, bvars, rvars, ovars>>
 
 KTimerFire ==
   /\ karmed /\ nkf < MaxKFires
@@ -229,14 +241,14 @@ KTake(g) ==
   /\ IF kbatch = <<>>
      THEN /\ IF g = "t"
              THEN /\ LET r == TIdle(pc, kfires) IN pc' = r[1] /\ kfires' = r[2]
-                  /\ UNCHANGED <<kbatch, karmed, ostr, lpend>>
+                  /\ UNCHANGED <<kbatch, karmed, ostr, lpend, lfin>>
              ELSE /\ LRun(kbatch, karmed, lpend, pc) /\ UNCHANGED kfires
           /\ UNCHANGED <<ev, klock>>
      ELSE /\ ev' = [ev EXCEPT ![g] = kbatch]
           /\ kbatch' = <<>> /\ karmed' = FALSE
           /\ pc' = [pc EXCEPT ![g] = "reserve"]
           /\ klock' = IF AtomicFlush THEN g ELSE klock
-          /\ UNCHANGED <<kfires, ostr, lpend>>
+          /\ UNCHANGED <<kfires, ostr, lpend, lfin>>
   /\ Log([a |-> "KTake", g |-> g, took |-> kbatch, full |-> pc'["c"] = "flush"])
   /\ UNCHANGED <<abs, eoi, nbar, nticks, nkf, bvars, rvars, ovars>>
 
@@ -250,7 +262,7 @@ KReserve(g) ==
   /\ klock' = IF AtomicFlush THEN "free" ELSE klock
   /\ IF g = "t"
      THEN /\ LET r == TIdle(pc, kfires) IN pc' = r[1] /\ kfires' = r[2]
-          /\ UNCHANGED <<kbatch, karmed, ostr, lpend>>
+          /\ UNCHANGED <<kbatch, karmed, ostr, lpend, lfin>>
      ELSE /\ LRun(kbatch, karmed, lpend, pc) /\ UNCHANGED kfires
   /\ Log([a |-> "KReserve", g |-> g, seq |-> nextSeq, events |-> ev[g], full |-> pc'["c"] = "flush"])
   /\ UNCHANGED <<abs, eoi, nbar, nticks, nkf, drained, items, kout, dblk, rvars, ovars>>
@@ -306,11 +318,12 @@ RStep ==
          todo  == IF ~fresh THEN rtodo
                   ELSE IF h.t = "r" THEN << <<Owner(Head(kout)), Head(kout)>> >>
                   ELSE IF h.t = "w" THEN [o \in Ops |-> <<o, Wm(njoin)>>]
+                  ELSE IF h.t = "c" THEN [o \in Ops |-> <<o, Cmp>>] \o [o \in Ops |-> <<o, FlushCmd>>]   \* broadcast, then operators.flush()
                   ELSE [o \in Ops |-> <<o, Bar(h.a)>>]
          op    == Head(todo)[1]
          it    == Head(todo)[2]
-         b2    == Append(obatch[op], it)
-         full  == Len(b2) >= MaxSize
+         b2    == IF it.t = "F" THEN obatch[op] ELSE Append(obatch[op], it)
+         full  == IF it.t = "F" THEN obatch[op] # <<>> ELSE Len(b2) >= MaxSize
          rest  == Tail(todo)
      IN /\ ostr' = IF fresh THEN Tail(ostr) ELSE ostr
         /\ kout' = IF fresh /\ h.t = "r" THEN Tail(kout) ELSE kout
@@ -324,13 +337,13 @@ RStep ==
                 /\ rbusy'  = TRUE
                 /\ nsent'  = nsent
            ELSE /\ obatch' = [obatch EXCEPT ![op] = b2]
-                /\ oarmed' = [oarmed EXCEPT ![op] = IF obatch[op] = <<>> /\ UseTimer THEN TRUE ELSE @]
+                /\ oarmed' = [oarmed EXCEPT ![op] = IF obatch[op] = <<>> /\ UseTimer /\ it.t # "F" THEN TRUE ELSE @]
                 /\ UNCHANGED <<ofire, rwait>>
                 /\ rbusy'  = (rest # <<>>)
                 /\ nsent'  = IF rest = <<>> THEN nsent + 1 ELSE nsent
         /\ Log([a |-> "RStep", op |-> op, item |-> it, flush |-> full,
-                arm |-> (~full /\ obatch[op] = <<>> /\ UseTimer), nsent |-> nsent'])
-  /\ UNCHANGED <<abs, lpend, eoi, nbar, nticks, kvars, nextSeq, drained, reserved, fetch, items, dblk, nof, ssend>>
+                arm |-> (~full /\ obatch[op] = <<>> /\ UseTimer /\ it.t # "F"), nsent |-> nsent'])
+  /\ UNCHANGED <<abs, lpend, eoi, lfin, nbar, nticks, kvars, nextSeq, drained, reserved, fetch, items, dblk, nof, ssend>>
 
 \* S(op) receives the size-flushed batch from `batches` and calls HandleEventBatch
 SRecvEn(op) == ~ssend[op].on /\ rwait.on /\ rwait.op = op
@@ -412,6 +425,10 @@ Complete ==
   (Done /\ Flushed) =>
      /\ \A o \in Ops : SetOf(RecsOf(stream[o])) = {r \in SetOf(order) : Owner(r) = o}
      /\ \A o \in Ops : \A c \in SetOf(cuts) : Bar(c.n) \in SetOf(stream[o])
+
+\* a source that reported end of input leaves nothing behind, time-outs or not
+\* (checked in configurations without time-outs; FALSE for the code as it is: Dev_NoFlushAtEOI)
+NoLossAtEOI == (Done /\ eoi) => \A o \in Ops : {r \in SetOf(order) : Owner(r) = o} \subseteq SetOf(stream[o])
 
 \* with time-outs available nothing stays behind (no deadlock in the design)
 NoStuck == (Done /\ UseTimer /\ nkf < MaxKFires /\ nof < MaxOFires) => Flushed
